@@ -189,9 +189,10 @@ Section M3uConfined.
   Qed.
 
   Lemma rename_confined_sec newname l :
+    is_dot newname = false ->
     m3u_rename fs base p newname = Acts l -> Forall (fun t => touch_inside bb t = true) l.
   Proof.
-    unfold m3u_rename, m3u_rename_with. intros H. apply with_guard_acts in H. destruct H as [G K].
+    unfold m3u_rename, m3u_rename_with, rename_target. intros Hnd H. rewrite Hnd in H. apply with_guard_acts in H. destruct H as [G K].
     unfold p in K. rewrite parent_snoc, base_name_snoc in K.
     destruct (resolve fs dirp) as [r| |] eqn:R; try discriminate. cbn [rbind] in K.
     rewrite B in K. cbn in K. injection K as <-.
@@ -239,6 +240,15 @@ Lemma scope_necessary_lemma :
   m3u_delete w_fs w_base p = Acts [TEntry [[114]; [111]] [108]]
   /\ touch_inside w_base (TEntry [[114]; [111]] [108]) = false
   /\ is_link_at w_fs [[114]; [111]] [108] = true.
+Proof. vm_compute. auto. Qed.
+
+(* the hypothesis `is_dot newname = false` of the rename theorem is necessary: for a URI
+   without extension and the new name "." the destination of the rename is the playlists
+   directory itself, whose entry lives in its parent (the kernel refuses that rename) *)
+Lemma rename_dot_target_lemma :
+  m3u_rename w_fs w_base (w_base ++ [[97]]) [46] =
+    Acts [TCreateIn w_base; TEntry w_base [97]; TEntry w_base [97]; TEntry [[114]] [105]]
+  /\ touch_inside w_base (TEntry [[114]] [105]) = false.
 Proof. vm_compute. auto. Qed.
 
 Example confined_nonvacuous :
